@@ -19,6 +19,7 @@ def a_line(a):
     return "%s:%d" % a
 
 
+HAVE_ALLOWANCE_OPS = True    # SendFrom / BurnFrom / DecreaseAllowance: switched on once the model has them
 NOT_NORMALISED = 500000000   # ("T", n): token n's address in upper case; to the model an address where no contract lives
 
 
@@ -86,6 +87,12 @@ def op_line(o):
         return "burn %d %d %d" % o[1:]
     if k == "send":
         return "send %d %d %d %d %s" % (o[1], o[2], o[3], o[4], hook_line(o[5]))
+    if k == "send_from":        # token spender owner target amount hook
+        return "send_from %d %d %d %d %d %s" % (o[1], o[2], o[3], o[4], o[5], hook_line(o[6]))
+    if k == "burn_from":        # token spender owner amount
+        return "burn_from %d %d %d %d" % o[1:]
+    if k == "decr_allow":       # token owner spender amount
+        return "decr_allow %d %d %d %d" % o[1:]
     if k == "provide":
         return "provide %d %d %s %s %d %s %d %s %s" % (o[1], o[2], coins_line(o[3]), a_line(o[4]), o[5], a_line(o[6]), o[7],
                                                        o_line(o[8]), o_line(o[9]))
@@ -132,6 +139,12 @@ def op_coq(o):
         return "(OBurn %s)" % n(*o[1:])
     if k == "send":
         return "(OSend %s %s)" % (n(*o[1:5]), hook_coq(o[5]))
+    if k == "send_from":
+        return "(OSendFrom %s %s)" % (n(*o[1:6]), hook_coq(o[6]))
+    if k == "burn_from":
+        return "(OBurnFrom %s)" % n(*o[1:])
+    if k == "decr_allow":
+        return "(ODecreaseAllowance %s)" % n(*o[1:])
     if k == "provide":
         return "(OProvide %s %s %s %s %s %s %s %s)" % (n(o[1], o[2]), coins_coq(o[3]), a_coq(o[4]), cq(o[5]), a_coq(o[6]), cq(o[7]),
                                                        o_coq(o[8]), o_coq(o[9]))
@@ -470,6 +483,10 @@ def parse_op_line(line):
         return (k, c.num(), c.num(), c.num())
     if k == "send":
         return (k, c.num(), c.num(), c.num(), c.num(), c.hook())
+    if k == "send_from":
+        return (k, c.num(), c.num(), c.num(), c.num(), c.num(), c.hook())
+    if k in ("burn_from", "decr_allow"):
+        return (k, c.num(), c.num(), c.num(), c.num())
     if k == "provide":
         return (k, c.num(), c.num(), c.coins(), c.asset(), c.num(), c.asset(), c.num(), c.onum(), c.onum())
     if k == "swap":
@@ -694,6 +711,43 @@ def gen_misc(h, rng, u):
     return ("fac_update_config", u, rng.choice([None, u]), rng.randrange(4))
 
 
+def gen_allowance_burst(h, rng, u):
+    """user-to-user allowances and the cw20 calls that spend them: an owner grants `u` an allowance on an asset token
+    or an LP token, trims it, and `u` spends it through TransferFrom / SendFrom (with a swap, withdraw or router hook:
+    the hook's sender is the SPENDER, the tokens are the OWNER's) / BurnFrom; then once more after the allowance ran out"""
+    pairs = h.pairs()
+    if not pairs:
+        return []
+    p = rng.choice(pairs)
+    owners = [x for x in h.users() if x != u]
+    ow = rng.choice(owners)
+    lp = h.pair_lp(p)
+    cands = [a[1] for a in h.pair_assets(p) if a[0] == "t"] + [lp]
+    t = rng.choice(cands)
+    have = h.bal(t, ow)
+    if have <= 0:
+        return []
+    n = max(1, have // rng.choice([2, 10, 1000]))
+    out = [("incr_allow", t, ow, u, 3 * n)]
+    if rng.random() < 0.5:
+        out.append(("decr_allow", t, ow, u, rng.choice([n, 1, 5 * n])))
+    if t == lp:
+        hook = rng.choice([("hwithdraw",), ("hwithdraw",), ("hgarbage",)])
+    else:
+        other = [a for a in h.pair_assets(p) if a != ("t", t)]
+        hook = rng.choice([("hswap", ("t", t), n, None, None, rng.choice([None, ow])), ("hswap", ("t", t), n, None, None, None),
+                           ("hwithdraw",), ("hswap", other[0], n, None, None, None)])
+    out.append(("send_from", t, u, ow, p, n, hook))
+    if t != lp and rng.random() < 0.5:
+        a0 = [a for a in h.pair_assets(p) if a != ("t", t)][0]
+        out.append(("send_from", t, u, ow, ROUTER, n, ("hrouter", [(("t", t), a0)], None, None)))
+    out.append(rng.choice([("burn_from", t, u, ow, max(1, n // 2)), ("transfer_from", t, u, ow, rng.choice(h.users() + [p]), max(1, n // 2))]))
+    out.append(("send_from", t, u, ow, p, 4 * n, hook))          # beyond what is left of the allowance
+    out.append(("decr_allow", t, ow, u, 10 * n))                  # removes the entry
+    out.append(("burn_from", t, u, ow, 1))                        # no allowance left
+    return out
+
+
 # ------------------------------------------------------------------ families
 def pick_scale(rng):
     return rng.choice([10 ** 9, 10 ** 12, 10 ** 18, 10 ** 24, 2 ** 100])
@@ -753,8 +807,11 @@ def general_histories(rng, tier, n_hist=None, steps=None):
                 o, quote = gen_router(h, rng, u)
                 if o:
                     h.do(o, quote)
-            else:
+            elif r < 0.94 or not HAVE_ALLOWANCE_OPS:
                 h.do(gen_misc(h, rng, u))
+            else:
+                for o in gen_allowance_burst(h, rng, u):
+                    h.do(o)
         # every holder tries to withdraw (liveness, C20)
         for p in h.pairs():
             lp = h.pair_lp(p)
@@ -1143,7 +1200,21 @@ def lp_handover_histories(rng, tier):
             h.do(("transfer", lp, USER0, USER0 + 3, b // 5))
             if (i + rep) % 3 == 0:
                 h.do(("transfer", lp, USER0 + 2, USER0 + 3, h.bal(lp, USER0 + 2)))      # a holder hands over everything
+            if (i + rep) % 3 != 1:
+                # LP tokens that can never move again: sent to the LP token's own address, or minted there by a provision
+                h.do(("transfer", lp, USER0, lp, max(1, h.bal(lp, USER0) // 6)))
+                r0, r1 = h.reserves(p)
+                if r0 > 10 and r1 > 10:
+                    h.do(("provide", p, USER0 + 1, funds_for([(a0, r0 // 9), (a1, r1 // 9)]), a0, r0 // 9, a1, r1 // 9, None, lp))
             h.do(gen_swap(h, rng, p, USER0 + 1, limits=False))
+            if HAVE_ALLOWANCE_OPS and (i + rep) % 2 == 1:
+                # the allowance entry point: a spender holding no LP of its own redeems an owner's LP (SendFrom + hook)
+                ow, sp = USER0, USER0 + 3 if h.bal(lp, USER0 + 3) == 0 else USER0 + 2
+                k = max(1, h.bal(lp, ow) // 7)
+                h.do(("incr_allow", lp, ow, sp, 2 * k))
+                h.do(("send_from", lp, sp, ow, p, k, ("hwithdraw",)))
+                h.do(("send_from", lp, sp, ow, p, k, ("hwithdraw",)))
+                h.do(("send_from", lp, sp, ow, p, 1, ("hwithdraw",)))        # allowance used up
             for u in (USER0 + 3, USER0 + 2, USER0 + 1, USER0):
                 b = h.bal(lp, u)
                 if b > 0:
@@ -1188,16 +1259,24 @@ def swap_matrix(rng, tier):
     return cases
 
 
-def registry_histories(rng, tier):
-    """creations and decimals registrations with up to 14 pairs (C16, C17)"""
+def registry_histories(rng, tier, big=False):
+    """creations and decimals registrations with up to 14 pairs, and (big) with 52 / 103 pairs (C16, C17)"""
     cases = []
     sizes = [1, 9, 10, 11, 12] if tier == "quick" else [1, 2, 5, 9, 10, 11, 12, 13, 14]
+    if big:
+        sizes += [52] if tier == "quick" else [31, 52, 103]
     for n in sizes:
-        h = Hist(2, 4, 3, 14, 10 ** 9, 1000, [6, 8, 18], "directed-grid", "registry with %d pairs" % n)
+        if n <= 14:
+            h = Hist(2, 4, 3, 14, 10 ** 9, 1000, [6, 8, 18], "directed-grid", "registry with %d pairs" % n)
+            nd_, nt_ = 4, 3
+        else:
+            # registries beyond every page size and batch size a walk might use: 11 / 15 assets give up to 55 / 105 pairs
+            nd_, nt_ = (6, 5) if n <= 55 else (8, 7)
+            h = Hist(1, nd_, nt_, n, 10 ** 9, 1000, [6, 8, 18, 6, 0, 12, 9][:nt_], "directed-grid", "registry with %d pairs" % n)
         owner = h.owner()
-        for d in range(4):
+        for d in range(nd_):
             h.do(("fac_add_native", owner, d, 6))
-        assets = [("n", d) for d in range(4)] + [("t", 2 + i) for i in range(3)]
+        assets = [("n", d) for d in range(nd_)] + [("t", 2 + i) for i in range(nt_)]
         allp = [(a, b) for i, a in enumerate(assets) for b in assets[i + 1:]]
         rng.shuffle(allp)
         # make sure denom 0 is in many pairs, in both positions
@@ -1214,9 +1293,14 @@ def registry_histories(rng, tier):
                 break
             if rng.random() < 0.5:
                 a, b = b, a
-            h.do(("fac_create_pair", owner, a, b, [USER0], rng.randrange(3), rng.randrange(3),
-                  rng.choice([None, 0, 10 ** 16, D, D + 1]), rng.choice([None, 6, 18, 19])))
+            if n <= 14:
+                h.do(("fac_create_pair", owner, a, b, [USER0], rng.randrange(3), rng.randrange(3),
+                      rng.choice([None, 0, 10 ** 16, D, D + 1]), rng.choice([None, 6, 18, 19])))
+            else:   # a big registry needs (nearly) every candidate to be created
+                h.do(("fac_create_pair", owner, a, b, [USER0], 0, 0, rng.choice([None, 0, 10 ** 16]), rng.choice([None, 6, 18])))
             made = len(h.pairs())
+            if n > 14:
+                continue        # the side attempts below are covered by the small registries
             if rng.random() < 0.3:
                 h.do(("fac_create_pair", owner, b, a, [USER0], 0, 0, None, None))       # duplicate, other order
             if rng.random() < 0.15:
@@ -1234,7 +1318,7 @@ def registry_histories(rng, tier):
         h.do(("fac_update_config", owner, None, 8))
         if h.pairs():
             h.do(("fac_migrate", owner, h.pairs()[0], 2))
-        for d in (0, 1, 0, 3):
+        for d in ((0, 1, 0, 3) if n <= 14 else tuple(range(nd_)) + (0,)):
             h.do(("fac_add_native", owner, d, rng.choice([0, 9, 12, 18])))
             h.do(("fac_add_native", USER0 + 1, d, 3))
         cases.append(h.finish())
